@@ -11,10 +11,10 @@ import (
 )
 
 var (
-	keys     = []string{"a", "b", "key", "stack_trace", "stack_trace", "", "x.y", "k=v", "sp ace", "é", "msg", "id"}
+	keys     = []string{"a", "b", "key", "stack_trace", "stack_trace", "", "x.y", "k=v", "sp ace", "é", "msg", "id", "k\nl"}
 	strs     = []string{"", "v", "hello world", "q\"uote", "nl\nline", "tab\t", "µs", "\xff\xfe", "back\\slash", "a=b |", " ", "\x00"}
 	grpNames = []string{"g", "grp", "", "req", "a.b", "é", "stack_trace"}
-	msgs     = []string{"", "msg", "hello world", "a | b", "k=v", "µ unicode", "tab\there", "\"quoted\""}
+	msgs     = []string{"", "msg", "hello world", "a | b", "k=v", "µ unicode", "tab\there", "\"quoted\"", "two\nlines", "ends with a line feed\n", "\r\n"}
 	levels   = []int{-8, -5, -4, -3, -1, 0, 1, 3, 4, 5, 7, 8, 9, 12, 100, -100, 1234, 2, -2, 10, 99, 101, 999, 1000, -9, -10, -99, 127, 128,
 		255, 256, math.MaxInt32, math.MaxInt32 + 1, math.MinInt32, math.MinInt32 - 1, math.MaxInt64, math.MaxInt64 - 1, math.MinInt64,
 		math.MinInt64 + 1, math.MaxInt64/2 + 1, 1 << 62}
